@@ -75,7 +75,7 @@ def extend(ctx, run_rules):
     with concurrent.futures.ThreadPoolExecutor(max_workers=4) as ex:
         for patch, out in ex.map(_mutant_worker, jobs):
             res[os.path.basename(patch)[:-5]] = out
-    caught = skipped = 0
+    caught = skipped = missed_seeds = 0
     detail = {}
     for name in sorted(expect):
         out = res.get(name, {"_error": "not run"})
@@ -91,6 +91,11 @@ def extend(ctx, run_rules):
         new = got - base
         want = set(expect[name]["keys"])
         ctx.inst(rid, name, sample={"mutant": name, "breaks": expect[name].get("what"), "reported": sorted(new)})
+        if not want and name.startswith("seed-") and not new:
+            # an independently written change that the rules do not report: recorded as missed in seeded/INDEX.md, shown here as such
+            detail[name] = "NOT reported (recorded as missed in seeded/INDEX.md)"
+            missed_seeds += 1
+            continue
         if not want <= got:
             ctx.fail_closed(rid, "mutant %s (%s) is not reported: expected %s, new findings %s" % (
                 name, expect[name].get("what"), sorted(want), sorted(new)))
@@ -99,4 +104,4 @@ def extend(ctx, run_rules):
         else:
             caught += 1
             detail[name] = "caught: " + ", ".join(sorted(want))
-    ctx.extra["selftest"] = {"mutants": len(expect), "caught": caught, "skipped": skipped, "detail": detail}
+    ctx.extra["selftest"] = {"mutants": len(expect), "caught": caught, "skipped": skipped, "independent_changes_not_reported": missed_seeds, "detail": detail}
